@@ -64,13 +64,13 @@ def model_check(name, cfg, module, expect_violation=None, workers=6, timeout=900
     expect_violation: name of the invariant a deviation configuration must violate."""
     rc, out, wall = tlc(name, cfg, module, os.path.join(SPECS, "mc"), workers=workers, timeout=timeout)
     st = tlc_stats(out)
-    viol = re.search(r"Invariant (\w+) is violated|Temporal properties were violated|Error: Deadlock reached", out)
+    viol = re.search(r"Invariant (\w+) is violated|Temporal property (\w+) was violated|Temporal properties were violated|Error: Deadlock reached", out)
     res = {"config": name, "states": st["distinct"], "transitions": st["generated"], "depth": st["depth"], "wall_s": round(wall, 1)}
     if "Model checking completed. No error has been found" in out:
         res["result"] = "ok"
     elif viol:
         res["result"] = "violated"
-        res["violated"] = viol.group(1) or viol.group(0)
+        res["violated"] = viol.group(1) or viol.group(2) or viol.group(0)
         tr = out[out.find("Error: The behavior up to this point is:"):]
         res["counterexample_actions"] = re.findall(r"State \d+: <(\w+)", tr)
     else:
@@ -91,6 +91,8 @@ def shard(scs, n):
 
 def run_driver_shard(args):
     binp, scen_path, out_path, extra = args
+    crash_ok = "--crash-is-data" in extra
+    extra = [a for a in extra if a != "--crash-is-data"]
     skip = 0
     outs = []
     part = 0
@@ -106,6 +108,41 @@ def run_driver_shard(args):
         if p.returncode == 3 and m:
             skip = int(m.group(1))
             part += 1
+            continue
+        if p.returncode != 0 and (p.returncode < 0 or p.returncode in (101, 134, 137, 139)) and crash_ok:
+            # the process died (abort / signal) while running a scenario: that is data, not a tool
+            # error. The victim is the scenario after the last completed execution.
+            done = set()
+            try:
+                with open(op) as f:
+                    for line in f:
+                        m = _strip.match(line)
+                        if m and '"ev":"End"' in line:
+                            done.add(m.group(1).split("#")[0])
+            except FileNotFoundError:
+                pass
+            scs = [json.loads(l) for l in open(scen_path) if l.strip()]
+            victim = None
+            for i, s_ in enumerate(scs):
+                if i < skip:
+                    continue
+                if s_["id"] not in done:
+                    victim = (i, s_)
+                    break
+            if victim is None:
+                return outs, "driver died (%d) but no victim found" % p.returncode
+            i, s_ = victim
+            x = s_["id"] + "#0"
+            with open(op, "a") as f:
+                f.write(json.dumps({"x": x, "i": 0, "th": "ctl", "now": 0, "ev": "Scenario", "sid": s_["id"], "prop": s_["prop"],
+                                    "drv": "d2", "j": s_["judge"]}, separators=(",", ":")) + "\n")
+                f.write(json.dumps({"x": x, "i": 1, "th": "ctl", "now": 0, "ev": "Abort", "code": p.returncode,
+                                    "stderr": p.stderr[-300:]}, separators=(",", ":")) + "\n")
+                f.write(json.dumps({"x": x, "i": 2, "th": "ctl", "now": 0, "ev": "End", "clean": False, "leaked": [], "steps": 0}, separators=(",", ":")) + "\n")
+            skip = i + 1
+            part += 1
+            if skip >= len(scs):
+                return outs, None
             continue
         if p.returncode != 0:
             return outs, "driver exit %d: %s %s" % (p.returncode, p.stdout[-500:], p.stderr[-1500:])
@@ -151,7 +188,10 @@ def load_executions(files, keep_now=True):
 def signature(lines, keep_now=True):
     h = hashlib.sha1()
     for l in lines:
+        if '"ev":"mark"' in l:
+            continue        # mechanism markers are not judge-level observations
         body = _strip.sub("{", l)
+        body = re.sub(r'^\{"th":"[^"]*",', "{", body)
         if not keep_now:
             body = re.sub(r'"now":\d+,', "", body)
         h.update(body.encode())
@@ -188,7 +228,7 @@ def validate(ex, reps, outdir, chunk_lines=15000, procs=8):
     cur, n = [], 0
     for x in reps:
         cur.append(x)
-        n += len(ex[x])
+        n += sum(1 for l_ in ex[x] if '"ev":"mark"' not in l_)
         if n >= chunk_lines:
             chunks.append(cur)
             cur, n = [], 0
@@ -202,6 +242,8 @@ def validate(ex, reps, outdir, chunk_lines=15000, procs=8):
             ln = 0
             for x in ch:
                 for l in ex[x]:
+                    if '"ev":"mark"' in l:
+                        continue
                     ln += 1
                     f.write(l + "\n")
         jobs.append((i, p, outdir))
@@ -213,7 +255,7 @@ def validate(ex, reps, outdir, chunk_lines=15000, procs=8):
                 raise ToolError("trace validation did not consume its trace (chunk %d):\n%s" % (idx, out[-3000:]))
             for (x, line, prop, guard) in vs:
                 viols.append({"x": x, "line": int(line), "prop": prop, "guard": guard, "chunk": idx})
-    total = sum(len(ex[x]) for x in reps)
+    total = sum(sum(1 for l_ in ex[x] if '"ev":"mark"' not in l_) for x in reps)
     # de-duplicate (TLC may evaluate an action more than once)
     uniq = {}
     for v in viols:
